@@ -304,7 +304,31 @@ def hostile():
     add("zip-truncated-stream", syn_doc(1, 1, chan0=chan(2, zlib.compress(b"\0" * 16)[:-3])))
     add("zip-short-output", syn_doc(1, 1, chan0=chan(2, zlib.compress(b"\0" * 5))))
     add("zip-garbage", syn_doc(1, 1, chan0=chan(3, b"\x78\x9c" + b"\xff" * 30)))
+    # ---- super-linear readers (found by the cost model: Props/C06.lean `slices_not_linear`, repo fix 606e5d1)
+    add("slices-speculative-descriptor-300", doc_with_resource(1050, slices_bait(300)),
+        "every slice is also the bait of the previous slice's speculative DescriptorBlock.read: the rest of the block is "
+        "read and decoded once per slice")
+    add("enginedata-tokens-16KB", doc_with_block(b"Txt2", b"/A [ " + b"0 " * 8000 + b"]", where="global"),
+        "an engine-data block of 8000 one-byte tokens (the tokenizer copied the rest of the blob once per token)")
     return out
+
+
+def slices_bait(n):
+    """Slices (version 6) with n slices of 69 bytes: slice_id 16 looks like a descriptor version to the PREVIOUS slice,
+    group_id 0x7fffffff like the length of that descriptor's name: `fp.read(2 * 0x7fffffff)` = everything that is left"""
+    u0 = P("I", 0)
+    one = P("3I", 16, 0x7FFFFFFF, 0) + u0 + P("I", 0) + P("4I", 0, 0, 0, 0) + u0 * 4 + b"\0" + u0 + P("2I", 0, 0) + b"\0" * 4
+    return P("I", 6) + P("4I", 0, 0, 0, 0) + u0 + P("I", n) + one * n
+
+
+def big_hostile():
+    """-> [(name, bytes, note)]  hostile files too large for the model driver: watchdog only"""
+    return [
+        ("slices-speculative-descriptor-3000", doc_with_resource(1050, slices_bait(3000)),
+         "the Slices resource re-read 3000 times: 311 MB returned by fp.read for 207 KB (known finding C06/open/read-volume/Slices)"),
+        ("enginedata-tokens-1400KB", doc_with_block(b"Txt2", b"/A [ " + b"0 " * 700000 + b"]", where="global"),
+         "1.4 MB of one-byte engine-data tokens: ~40 s before repo fix 606e5d1 (quadratic), ~5 s after"),
+    ]
 
 
 # ------------------------------------------------------------------------------------------------ header cases
